@@ -9,6 +9,7 @@ mod refmath;
 mod runner;
 mod gen;
 mod shadow;
+mod prog;
 mod props;
 
 use runner::*;
